@@ -110,7 +110,8 @@ func H_C12(op, router, entry, target int) {
 // Judged afterwards: (1) no panic, no deadlock; (2) the concurrent request was answered as the registration state
 // before or after the change answers it; (3) the container that went through the concurrent phase answers a
 // symbolic choice of later requests exactly like one on which the change was made with no request in flight.
-// op, router, entry, target as in H_C12; pre: preemption bound
+// op, router, entry, target as in H_C12, plus op 4 (Remove the service, then add a route to it) and op 5 (add a method to an
+// existing path); pre: preemption bound
 func H_C12_sched(op, router, entry, target, pre int) {
 	three := router >= 10 // thorough: a third thread makes a second change of another kind
 	router %= 10
@@ -147,6 +148,19 @@ func H_C12_sched(op, router, entry, target, pre int) {
 			w.a.Route(w.a.POST("/x").To(func(req *Request, resp *Response) { w.hits = append(w.hits, "/a/x") }))
 		case 3:
 			w.a.RemoveRoute("/a/s", "GET")
+		case 4:
+			// two changes by one goroutine: the service goes away, then gets a route nobody can reach any more
+			w.c.Remove(w.a)
+			w.a.Route(w.a.POST("/x").To(func(req *Request, resp *Response) { w.hits = append(w.hits, "/a/x") }))
+		case 5:
+			// a method is added to a path that exists: a request with that method is 405 (Allow without it) or served
+			w.a.Route(w.a.DELETE("/r").To(func(req *Request, resp *Response) { w.hits = append(w.hits, "DELETE /a/r") }))
+		}
+	}
+	// states in between: what the registrations look like after the first of two changes
+	mutateHalf := func(w *world) {
+		if op == 4 {
+			w.c.Remove(w.a)
 		}
 	}
 	mutate2 := func(w *world) {
@@ -178,14 +192,17 @@ func H_C12_sched(op, router, entry, target, pre int) {
 	cm, cp := "GET", "/a/r"
 	switch target {
 	case 0:
-		cp = []string{"/c/r", "/a/r", "/a/x", "/a/s"}[op]
-		if op == 2 {
+		cp = []string{"/c/r", "/a/r", "/a/x", "/a/s", "/a/x", "/a/r"}[op]
+		if op == 2 || op == 4 {
 			cm = "POST"
+		}
+		if op == 5 {
+			cm = "DELETE"
 		}
 	case 1:
 		cp = "/b/r"
 	case 2:
-		cm, cp = "OPTIONS", []string{"/c/r", "/a/r", "/a/x", "/a/s"}[op]
+		cm, cp = "OPTIONS", []string{"/c/r", "/a/r", "/a/x", "/a/s", "/a/x", "/a/r"}[op]
 	}
 	w := build()
 	var got answer
@@ -200,8 +217,17 @@ func H_C12_sched(op, router, entry, target, pre int) {
 	before, after := build(), build()
 	mutate(after)
 	ab, aa := serve(before, cm, cp), serve(after, cm, cp)
+	if op == 4 {
+		// the state between the two changes existed too
+		half := build()
+		mutateHalf(half)
+		if ah := serve(half, cm, cp); got == ah {
+			ab = ah
+		}
+	}
 	// recorded finding: the OPTIONS filter walks the registrations a second time
 	verifKnown("options-filter-second-walk", entry == 1 && op == 1 && target == 2 && got.status == 200 && got.hits == "" && got.allow == "")
+	verifKnown("options-filter-torn-walk", op == 4 && target == 2 && got.status == 200 && got.hits == "" && got.allow == "POST")
 	if three {
 		// the second change touches another service: the request's answer may also be that of the worlds in which only
 		// the second, or both changes were made; later requests see both
@@ -226,7 +252,7 @@ func H_C12_sched(op, router, entry, target, pre int) {
 		verifCover("saw-the-old-state")
 	}
 	// later requests see exactly the changed registrations
-	probes := [][2]string{{"GET", "/a/r"}, {"GET", "/a/s"}, {"POST", "/a/x"}, {"GET", "/b/r"}, {"GET", "/c/r"}, {"OPTIONS", "/a/x"}, {"OPTIONS", "/a/s"}, {"OPTIONS", "/c/r"}, {"GET", "/a/x"}, {"POST", "/b/z"}, {"OPTIONS", "/b/z"}}
+	probes := [][2]string{{"DELETE", "/a/r"}, {"PUT", "/a/r"}, {"GET", "/a/r"}, {"GET", "/a/s"}, {"POST", "/a/x"}, {"GET", "/b/r"}, {"GET", "/c/r"}, {"OPTIONS", "/a/x"}, {"OPTIONS", "/a/s"}, {"OPTIONS", "/c/r"}, {"GET", "/a/x"}, {"POST", "/b/z"}, {"OPTIONS", "/b/z"}}
 	for _, p := range probes {
 		x, y := serve(w, p[0], p[1]), serve(after, p[0], p[1])
 		verifAssert(x == y, "C12: after a registration change that overlapped a request, later requests are not answered according to the changed registrations")
